@@ -189,11 +189,13 @@ func ParseRtmpUrl(rawUrl string) (ctx UrlContext, err error) {
 	// RawQuery:vhost=thirdVhost?token=88F4/lss_7---------------> 空
 	//
 	if strings.Count(ctx.PathWithRawQuery, "?") > 1 {
-		index := strings.LastIndexByte(ctx.PathWithRawQuery, '/')
-		ctx.Path = ctx.PathWithRawQuery
-		ctx.PathWithoutLastItem = ctx.PathWithRawQuery[1:index]
-		ctx.LastItemOfPath = ctx.PathWithRawQuery[index+1:]
-		ctx.RawQuery = ""
+		// 注意，path只有一级时(比如 rtmp://host/app?a?b )，最后一个'/'就是path开头的'/'，此时没有可以再拆分的部分
+		if index := strings.LastIndexByte(ctx.PathWithRawQuery, '/'); index > 0 {
+			ctx.Path = ctx.PathWithRawQuery
+			ctx.PathWithoutLastItem = ctx.PathWithRawQuery[1:index]
+			ctx.LastItemOfPath = ctx.PathWithRawQuery[index+1:]
+			ctx.RawQuery = ""
+		}
 	}
 
 	return
